@@ -739,6 +739,8 @@ class Facts:
             self.pointer_bits = d.get("pointer_bits", 64)
             for b in d["bodies"]:
                 raw_bodies.append(b)
+        import specialize
+        self.specialised = specialize.specialize(raw_bodies, norm)
         known = {norm(b["path"]): b["crate"] for b in raw_bodies}
         for b in raw_bodies:
             _resolve_conversions(b, known)
